@@ -33,8 +33,8 @@ class Scen:
         Bs, Bo = self.B
         Cs, Co = self.C if self.C else (1.0, (50.0, 50.0, 50.0))
         return [self.cut_adh, self.cut_rep, self.lmin] + list(self.T) + list(p) + [Bs] + list(Bo) + [Cs] + list(Co)
-    def iin(self, ref=0, nruns=1):
-        return [self.clsA, self.clsB, 1 if self.C else 0, ref, nruns]
+    def iin(self, ref=0, nruns=1, idoff=0, gap=0, listing=0):
+        return [self.clsA, self.clsB, 1 if self.C else 0, ref, nruns, idoff, gap, listing]
     def pad(self):
         return max(self.cut_adh, self.cut_rep)
 
@@ -48,6 +48,9 @@ def scenarios(quick):
         out.append(Scen('p below B (outside through the bottom face), large cut-off', 0.5, 0.5, 0.2, (3.1, 4.7, -2.2), (2.0, (0, 0, 0)), None, (0.2, 0.2, -0.9), (1.0, 1.0, 0.2)))
         out.append(Scen('epithelial A against ECM B', 0.2, 0.15, 0.1, (0, 0, 0), (2.0, (0, 0, 0)), None, (0.55, 0.55, 0.55), (1.25, 1.25, 1.25), 0, 1))
     return out
+
+# B = octahedron 1.5 x unit at (0.2, 0.1, 0) with the edge (0,2) collapsed before the model runs; p next to its upper faces
+SCGAP = Scen('B = octahedron with a collapsed edge (two unused face slots), cut-offs 0.2/0.15, l_min 0.1', 0.2, 0.15, 0.1, (0, 0, 0), (1.5, (0.2, 0.1, 0.0)), None, (0.55, 0.45, 0.65), (0.9, 0.8, 1.0))
 
 def split_box(lo, hi, n):
     cuts = [[lo[k] + (hi[k] - lo[k]) * i / n for i in range(n + 1)] for k in range(3)]
@@ -87,7 +90,7 @@ def outside_box(pos, fnodes, pad):
 
 MARK = 'h_c06_marker'
 
-def run_box(cm, sc, lo, hi, tmo_ms, max_paths, nruns=1):
+def run_box(cm, sc, lo, hi, tmo_ms, max_paths, nruns=1, idoff=0, gap=0):
     t0 = time.time()
     ir = build.build_ir(['h_broad.cpp'], contact=cm)
     z = SV.Z3Ctx()
@@ -104,19 +107,40 @@ def run_box(cm, sc, lo, hi, tmo_ms, max_paths, nruns=1):
         it.events.append(('run', a[0]))
         return None
     sess = api.Session(ir, mode='real', overrides={AABB: aabb, MARK: marker}, setup=setup)
-    ctl, res = sess.explore(ENTRY, sc.din(P), sc.iin(0, nruns), assumptions=box, zctx=z, max_paths=max_paths, branch_timeout_ms=tmo_ms)
-    name = 'contact model %d/%s%s/p in [%s]' % (cm, sc.name, (' (run %d of the same model object)' % nruns) if nruns > 1 else '', ' x '.join('%.3g..%.3g' % (lo[k], hi[k]) for k in range(3)))
+    ctl, res = sess.explore(ENTRY, sc.din(P), sc.iin(0, nruns, idoff, gap, 1), assumptions=box, zctx=z, max_paths=max_paths, branch_timeout_ms=tmo_ms)
+    name = 'contact model %d/%s%s%s%s/p in [%s]' % (cm, sc.name, (' (run %d of the same model object)' % nruns) if nruns > 1 else '', (' (persistent ids = positions + %d)' % idoff) if idoff else '', ' (B = octahedron with a collapsed edge: unused face slots)' if gap else '', ' x '.join('%.3g..%.3g' % (lo[k], hi[k]) for k in range(3)))
     out = {'name': name, 'obs': [], 'cands': [], 'fail': [], 'paths': ctl.paths_done, 'functions': sorted(sess.functions_called), 'witness': 0, 'pairs_passed': 0}
     if not ctl.exhausted: out['fail'].append('%s: path budget exhausted (%d)' % (name, ctl.paths_done))
     ncell = 3 if sc.C else 2
-    nodes = [cell_nodes(sc, c, P) for c in range(ncell)]
     pad = sc.pad()
     for (tr, pc, r) in res:
         st = getattr(r, 'status', None)
         if st == 'pathend': continue
+        if st == 'memory':
+            stw, m_ = SV.satisfiable(z, pc, tmo_ms)
+            if stw != 'unsat':
+                out['obs'].append((name + '/path ' + ''.join('T' if d.taken else 'F' for d in tr if not d.forced)[-28:] + '/every access of the broad phase inside a live object', 'cand-dup', True, 0.0, None))
+                out['cands'].append({'node': None, 'face': None, 'model': {k: float(Fraction(v)) for k, v in (m_ or {}).items()}, 'box': (lo, hi), 'ob': name + '/every access of the broad phase inside a live object',
+                                     'memory': '%s: %s (%s)' % (r.error[0], r.error[1], r.error[2][:160]), 'nruns': nruns, 'idoff': idoff, 'gap': gap})
+            continue
         if st != 'ok':
             out['fail'].append('%s: path ended with %s %r' % (name, st, getattr(r, 'error', None))); continue
         key = 'path ' + ''.join('T' if d.taken else 'F' for d in tr if not d.forced)[-28:]
+        # geometry listing written by the harness before the model runs: used faces in the order of the model's face list, used nodes per cell
+        try:
+            io_ = r.iout; do_ = r.dout; ip = 0; dp = 0
+            nfa = io_[ip]; ip += 1
+            FACES = []
+            for _ in range(nfa):
+                FACES.append((io_[ip], io_[ip + 1], [[S.R(do_[dp + 3 * j + k]) for k in range(3)] for j in range(3)])); ip += 2; dp += 9
+            assert io_[ip] == -4242; ip += 1
+            NODES = {}
+            for c in range(ncell):
+                nn_ = io_[ip]; ip += 1
+                for _ in range(nn_):
+                    NODES[(c, io_[ip])] = [S.R(do_[dp + k]) for k in range(3)]; ip += 1; dp += 3
+        except Exception as e_:
+            out['fail'].append('%s: geometry listing unreadable (%r)' % (name, e_)); continue
         passed = set(); handed = []
         last_run = max([e[1] for e in r.events if e[0] == 'run'] or [0])
         cur_run = 0
@@ -126,11 +150,11 @@ def run_box(cm, sc, lo, hi, tmo_ms, max_paths, nruns=1):
             gf, pos = e[1], e[2]
             # identify the node by its exact position
             who = None
-            for c in range(ncell):
-                for n in range(4):
+            for (c, n) in sorted(NODES):
+                if True:
                     same = True
                     for k in range(3):
-                        a = pos[k]; b = nodes[c][n][k]
+                        a = pos[k]; b = NODES[(c, n)][k]
                         d = S.sub(S.R(a), b)
                         cv = S.cval(d)
                         if cv is None:
@@ -145,27 +169,32 @@ def run_box(cm, sc, lo, hi, tmo_ms, max_paths, nruns=1):
                 if who: break
             if who is None:
                 out['fail'].append('%s: a recorded node position could not be identified' % name); continue
-            passed.add((who, (gf // 4, gf % 4))); handed.append((who, (gf // 4, gf % 4)))
+            if not (0 <= gf < len(FACES)):
+                out['fail'].append('%s: box index %r outside the face list' % (name, gf)); continue
+            fid = (FACES[gf][0], FACES[gf][1])
+            passed.add((who, fid)); handed.append((who, fid))
+        same = sorted({x for x in handed if x[0][0] == x[1][0]})
+        out['obs'].append((name + '/' + key + '/no node is handed to a face of its own cell', 'proved' if not same else 'cand-dup', True, 0.0, None))
+        if same:
+            stw, m_ = SV.satisfiable(z, pc, tmo_ms)
+            out['cands'].append({'node': same[0][0], 'face': same[0][1], 'model': {k: float(Fraction(v)) for k, v in (m_ or {}).items()}, 'box': (lo, hi), 'ob': name + '/' + key + '/no node is handed to a face of its own cell', 'same': True, 'nruns': nruns, 'idoff': idoff, 'gap': gap})
         dup = sorted({x for x in handed if handed.count(x) > 1})
         out['obs'].append((name + '/' + key + '/no pair is handed to the contact rules more than once in one run (%d hand-overs)' % len(handed), 'proved' if not dup else 'cand-dup', True, 0.0, None))
         if dup:
             stw, m_ = SV.satisfiable(z, pc, tmo_ms)
-            out['cands'].append({'node': dup[0][0], 'face': dup[0][1], 'model': {k: float(Fraction(v)) for k, v in (m_ or {}).items()}, 'box': (lo, hi), 'ob': name + '/' + key + '/no pair is handed to the contact rules more than once in one run', 'dup': True, 'nruns': nruns})
+            out['cands'].append({'node': dup[0][0], 'face': dup[0][1], 'model': {k: float(Fraction(v)) for k, v in (m_ or {}).items()}, 'box': (lo, hi), 'ob': name + '/' + key + '/no pair is handed to the contact rules more than once in one run', 'dup': True, 'nruns': nruns, 'idoff': idoff, 'gap': gap})
         out['pairs_passed'] += len(passed)
         if any(w == (0, 0) for (w, f) in passed): out['witness'] += 1
         # every (node, face of another cell) that was not handed over must be outside the padded box
         cl_all = S.TRUE; missing = []
-        for c in range(ncell):
-            for n in range(4):
-                for c2 in range(ncell):
-                    if c2 == c: continue
-                    for f in range(4):
-                        if ((c, n), (c2, f)) in passed: continue
-                        fn = [nodes[c2][i] for i in T4F[f]]
-                        cl = outside_box(nodes[c][n], fn, pad)
-                        if cl is S.TRUE: continue
-                        missing.append(((c, n), (c2, f), cl))
-                        cl_all = S.band(cl_all, cl)
+        for (c, n) in sorted(NODES):
+            for (c2, f, fn) in FACES:
+                if c2 == c: continue
+                if ((c, n), (c2, f)) in passed: continue
+                cl = outside_box(NODES[(c, n)], fn, pad)
+                if cl is S.TRUE: continue
+                missing.append(((c, n), (c2, f), cl))
+                cl_all = S.band(cl_all, cl)
         t = time.time()
         stc, m = SV.prove(z, pc, cl_all, tmo_ms) if cl_all is not S.TRUE else ('proved', None)
         obname = name + '/' + key + '/every pair not handed to the contact rules is outside the padded box (%d pairs passed, %d withheld)' % (len(passed), len(missing))
@@ -175,7 +204,7 @@ def run_box(cm, sc, lo, hi, tmo_ms, max_paths, nruns=1):
             for (nd, fc, cl) in missing:
                 s1, m1 = SV.prove(z, pc, cl, tmo_ms)
                 if s1 == 'violated':
-                    cand = {'node': nd, 'face': fc, 'model': {k: float(Fraction(v)) for k, v in (m1 or {}).items()}, 'box': (lo, hi), 'ob': obname}
+                    cand = {'node': nd, 'face': fc, 'model': {k: float(Fraction(v)) for k, v in (m1 or {}).items()}, 'box': (lo, hi), 'ob': obname, 'nruns': nruns, 'idoff': idoff, 'gap': gap}
                     out['cands'].append(cand)
                     break
         if cand is None:
@@ -183,9 +212,9 @@ def run_box(cm, sc, lo, hi, tmo_ms, max_paths, nruns=1):
     out['queries'] = z.queries; out['solver_s'] = z.solver_time; out['wall'] = time.time() - t0
     return out
 
-def native_loss(native, sc, p, nruns=1):
+def native_loss(native, sc, p, nruns=1, idoff=0, gap=0):
     """real run() (the last of nruns runs of one model object) against a fresh one-voxel-per-axis reference on the same tissue; returns description of the difference or None"""
-    q = native.call(ENTRY, sc.din(p), sc.iin(1, nruns))
+    q = native.call(ENTRY, sc.din(p), sc.iin(1, nruns, idoff, gap, 0))
     if q.get('status') != 0: return 'native run ended with %r' % (q.get('status'),)
     nd = len(q['d']) // 2; ni = len(q['i']) // 2
     if q['i'][:ni] != q['i'][ni:]: return 'couplings differ between the real grid and the single-voxel reference'
@@ -212,11 +241,14 @@ def main(chk):
         ir = build.build_ir(['h_broad.cpp'], contact=cm); nat = build.build_native(['h_broad.cpp'], contact=cm)
         natives[cm] = api.Native(nat)
         sc_ = api.Session(ir, mode='ieee')
-        for sc in SC:
+        for sc in SC + [SCGAP]:
             for rep in range(2 if quick else 5):
                 p = [sc.lo[k] + rnd.random() * (sc.hi[k] - sc.lo[k]) for k in range(3)]
-                r = sc_.run(ENTRY, sc.din(p), sc.iin(1)); q = natives[cm].call(ENTRY, sc.din(p), sc.iin(1))
+                gap_ = 1 if sc is SCGAP else 0
+                r = sc_.run(ENTRY, sc.din(p), sc.iin(1, 1, 0, gap_, 1)); q = natives[cm].call(ENTRY, sc.din(p), sc.iin(1, 1, 0, gap_, 1))
                 nval += 1
+                if r.status == 'memory':
+                    continue          # decided by the symbolic part below (reports are replayed natively there)
                 if r.status != 'ok' or q.get('status') != 0 or r.iout != q['i'] or len(r.dout) != len(q['d']) or not all(api.same_double(a, b) for a, b in zip(r.dout, q['d'])):
                     mism += 1; chk.note('validation mismatch cm=%d %s p=%r: %r' % (cm, sc.name, p, (r.status, getattr(r, 'error', None))))
         chk.functions |= sc_.functions_called
@@ -232,8 +264,18 @@ def main(chk):
     for cm in ((1,) if quick else (0, 1, 2)):
         for (lo, hi) in split_box(SC[0].lo, SC[0].hi, nsplit):
             jobs.append((cm, 0, lo, hi, 2))
+    # persistent cell ids ahead of the list positions (earlier removals / divisions): the same-cell filter and the hand-over must not depend on it
+    for cm in ((1,) if quick else (0, 1, 2)):
+        for (lo, hi) in split_box(SC[0].lo, SC[0].hi, nsplit):
+            jobs.append((cm, 0, lo, hi, 1, 1))
+    # a cell whose face list has unused slots (after an edge collapse): positions in the model's face list differ from slot numbers
+    for cm in ((1,) if quick else (0, 1, 2)):
+        # (expensive per path: one small box next to an upper face of B in the quick tier)
+        for (lo, hi) in ([((0.70, 0.60, 0.80), (0.78, 0.68, 0.88))] if quick else split_box((0.66, 0.56, 0.76), (0.82, 0.72, 0.92), 2)):
+            jobs.append((cm, -1, lo, hi, 1, 0, 1))
     chk.log('%d explorations' % len(jobs))
-    outs = par.pmap(lambda i: run_box(jobs[i][0], SC[jobs[i][1]], jobs[i][2], jobs[i][3], 10000 if quick else 30000, 1500 if quick else 6000, jobs[i][4] if len(jobs[i]) > 4 else 1), len(jobs), procs=15)
+    def sc_of(j): return SCGAP if j[1] == -1 else SC[j[1]]
+    outs = par.pmap(lambda i: run_box(jobs[i][0], sc_of(jobs[i]), jobs[i][2], jobs[i][3], 10000 if quick else 30000, 1500 if quick else 6000, jobs[i][4] if len(jobs[i]) > 4 else 1, jobs[i][5] if len(jobs[i]) > 5 else 0, jobs[i][6] if len(jobs[i]) > 6 else 0), len(jobs), procs=15)
     for job_, o in zip(jobs, outs):
         cm, si, lo, hi = job_[:4]
         chk.paths += o['paths']; chk.queries += o['queries']; chk.solver_s += o['solver_s']; chk.witnesses += o['witness']
@@ -243,13 +285,25 @@ def main(chk):
             if status != 'cand-dup': chk.ob(name, status, core, t, detail)
         if len(chk.samples) < 10: chk.samples.append({'exploration': o['name'], 'paths': o['paths'], 'pairs handed over (sum over paths)': o['pairs_passed'], 'seconds': round(o['wall'], 1)})
         for cand in o['cands']:
-            sc = SC[si]
+            sc = SCGAP if si == -1 else SC[si]
             p = [cand['model'].get(v, (lo[k] + hi[k]) / 2) for k, v in enumerate(PV)]
-            diff = native_loss(natives[cm], sc, p, cand.get('nruns', 1))
+            diff = native_loss(natives[cm], sc, p, cand.get('nruns', 1), cand.get('idoff', 0), cand.get('gap', 0))
             rep = {'contact model': cm, 'scenario': sc.name, 'p': p, 'withheld pair': {'node (cell, index)': cand['node'], 'face (cell, index)': cand['face']}, 'native': diff, 'din': sc.din(p), 'iin': sc.iin(1),
                    'how': 'harness h_c06_broad (/verif/harness/h_broad.cpp) built with contact model %d: forces of run() against the single-voxel reference' % cm}
             chk.ob(cand['ob'], 'violated' if diff else 'unknown', False, 0.0, {'p': p, 'native': diff})
-            if diff and cand.get('dup'):
+            if cand.get('memory'):
+                from checks.c10 import valgrind_replay
+                nat_ = build.build_native(['h_broad.cpp'], contact=cm)
+                vg = valgrind_replay(nat_, ENTRY, sc.din(p), sc.iin(0, cand.get('nruns', 1), cand.get('idoff', 0), cand.get('gap', 0), 0))
+                rep['valgrind'] = vg; rep['irsym'] = cand['memory']
+                if diff or 'invalid-access' in vg.get('kinds', []):
+                    chk.violation('C06/invalid access in the broad phase/contact model %d' % cm, '%s at p=%r [%s]; native: %s; valgrind: %s' % (cand['memory'], p, sc.name, diff, vg.get('first')), rep)
+                else:
+                    chk.fail_closed.append('memory report in the broad phase not confirmed natively: %s' % cand['memory'])
+            elif cand.get('same'):
+                # a node handed to a face of its own cell: the reference (single voxel, same filter) cannot serve as oracle; the filter is wrong by itself
+                chk.violation('C06/node handed to a face of its own cell/contact model %d' % cm, 'node %r is handed to face %r of its own cell at p=%r when the persistent cell ids are the list positions + %d [%s]' % (cand['node'], cand['face'], p, cand.get('idoff', 0), sc.name), rep)
+            elif diff and cand.get('dup'):
                 chk.violation('C06/pair handed over more than once in one run/contact model %d' % cm, 'node %r and face %r are handed to the contact rules several times in run %d of the same model object at p=%r [%s]; native: %s' % (cand['node'], cand['face'], cand.get('nruns', 1), p, sc.name, diff), rep)
             elif diff:
                 chk.violation('C06/pair withheld inside the cut-off box/contact model %d' % cm, 'node %r and face %r are not handed to the contact rules although p=%r lies inside the padded box [%s]; native: %s' % (cand['node'], cand['face'], p, sc.name, diff), rep)
